@@ -167,7 +167,10 @@ func getD(m *GetD) (*Reply, error) {
 
 func newSvc(c *onet.Context) (onet.Service, error) {
 	s := &svc{ServiceProcessor: onet.NewServiceProcessor(c)}
-	if err := s.RegisterHandlers(wsA, wsB, wsG); err != nil {
+	if err := s.RegisterHandlers(wsA, wsB, wsG, s.wsQ); err != nil {
+		return nil, err
+	}
+	if err := s.RegisterStreamingHandler(streamT); err != nil {
 		return nil, err
 	}
 	for _, r := range []struct {
@@ -244,6 +247,16 @@ type input struct {
 	// all outstanding requests are blocked (in a handler, on the client's
 	// connection lock, or reading the reply).
 	Scripts [][]int `json:"scripts,omitempty"`
+	// Streams[i]: conversations on the streaming path that run concurrently with round i
+	Streams [][]streamConv `json:"streams,omitempty"`
+	// Par, if present, makes this a scenario of the repo's own client API against several servers
+	Par *parInput `json:"par,omitempty"`
+}
+
+// what one round produced
+type roundOut struct {
+	Replies []obsReply  `json:"replies"`
+	Streams []streamObs `json:"streams,omitempty"`
 }
 
 // ---------------------------------------------------------------- observations
@@ -480,7 +493,7 @@ const roundDeadline = 12 * time.Second
 
 // runScenario returns the observations of the rounds that were run; hung = the last of
 // them did not end (the process must not be reused: goroutines are stuck).
-func runScenario(in *input) (obs [][]obsReply, discard bool, hung bool) {
+func runScenario(in *input) (obs []roundOut, discard bool, hung bool) {
 	registerOnce.Do(func() {
 		log.SetDebugVisible(0)
 		log.OutputToBuf()
@@ -556,9 +569,22 @@ func runScenario(in *input) (obs [][]obsReply, discard bool, hung bool) {
 			}
 			done[i] = make(chan struct{})
 		}
+		var convs []streamConv
+		if ri < len(in.Streams) {
+			convs = in.Streams[ri]
+		}
+		sout := make([]streamObs, len(convs))
+		sdone := make([]chan struct{}, len(convs))
+		for i := range convs {
+			sdone[i] = make(chan struct{})
+			go func(i int) {
+				defer close(sdone[i])
+				sout[i] = doStream(srv, &convs[i])
+			}(i)
+		}
 		if ri < len(in.Scripts) && len(in.Scripts[ri]) > 0 {
 			runScripted(rd, in.Scripts[ri], exec1, done)
-		} else if len(rd) == 1 {
+		} else if len(rd) == 1 && len(convs) == 0 {
 			exec1(0)
 		} else {
 			for i := range rd {
@@ -568,9 +594,9 @@ func runScenario(in *input) (obs [][]obsReply, discard bool, hung bool) {
 		// a round that does not end (a lock left held, a lost reply) ends the scenario
 		deadline := time.After(roundDeadline)
 		hung := false
-		for i := range rd {
+		for _, d := range append(append([]chan struct{}{}, done...), sdone...) {
 			select {
-			case <-done[i]:
+			case <-d:
 			case <-deadline:
 				hung = true
 			}
@@ -586,10 +612,17 @@ func runScenario(in *input) (obs [][]obsReply, discard bool, hung bool) {
 					out[i] = obsReply{Class: "ETransport", Raw: "no reply and no error within " + roundDeadline.String()}
 				}
 			}
-			obs = append(obs, out)
+			for i := range convs {
+				select {
+				case <-sdone[i]:
+				default:
+					sout[i] = streamObs{Status: "dead", Raw: "conversation did not end within " + roundDeadline.String()}
+				}
+			}
+			obs = append(obs, roundOut{out, sout})
 			return obs, false, true
 		}
-		obs = append(obs, out)
+		obs = append(obs, roundOut{out, sout})
 	}
 	return obs, false, false
 }
@@ -964,7 +997,7 @@ func childMain() {
 			say("X")
 			continue
 		}
-		obs, discard, hung := func() (o [][]obsReply, d bool, h bool) {
+		obs, discard, hung := func() (o []interface{}, d bool, h bool) {
 			defer func() {
 				// the scenario could not be set up (e.g. the port picked for the
 				// test server was taken in the meantime): not reached, not reported
@@ -973,7 +1006,18 @@ func childMain() {
 					o, d, h = nil, true, false
 				}
 			}()
-			return runScenario(&inp)
+			if inp.Par != nil {
+				steps, d, h := runPar(&inp)
+				for _, x := range steps {
+					o = append(o, x)
+				}
+				return o, d, h
+			}
+			rounds, d, h := runScenario(&inp)
+			for _, x := range rounds {
+				o = append(o, x)
+			}
+			return o, d, h
 		}()
 		if discard {
 			say("X")
@@ -1064,7 +1108,7 @@ func (c *child) kill() {
 }
 
 // runInChild returns the observed rounds, and why the scenario ended early ("" = it did not)
-func runInChild(raw []byte) (obs [][]obsReply, discard bool, died string) {
+func runInChild(raw []byte) (obs []json.RawMessage, discard bool, died string) {
 	if theChild == nil {
 		theChild = startChild()
 	}
@@ -1090,11 +1134,7 @@ func runInChild(raw []byte) (obs [][]obsReply, discard bool, died string) {
 				theChild = nil
 				return obs, false, "hung"
 			case strings.HasPrefix(l, "R "):
-				var rd []obsReply
-				if err := json.Unmarshal([]byte(l[2:]), &rd); err != nil {
-					panic(err)
-				}
-				obs = append(obs, rd)
+				obs = append(obs, json.RawMessage(l[2:]))
 			}
 		case <-time.After(90 * time.Second):
 			c.kill()
@@ -1109,17 +1149,31 @@ func run(raw json.RawMessage) lib.Case {
 	if err := json.Unmarshal(raw, &in); err != nil {
 		panic(err)
 	}
-	obs, discard, died := runInChild(raw)
+	lines, discard, died := runInChild(raw)
 	if discard {
 		return lib.Case{Discard: true}
+	}
+	if in.Par != nil {
+		return parCase(&in, lines, died)
+	}
+	obs := make([]roundOut, len(lines))
+	for i, l := range lines {
+		if err := json.Unmarshal(l, &obs[i]); err != nil {
+			panic(err)
+		}
 	}
 	crashed := died != ""
 	if died != "" && died != "hung" && len(obs) < len(in.Rounds) {
 		// the round that was running when the process died: nobody was answered
-		rd := in.Rounds[len(obs)]
-		out := make([]obsReply, len(rd))
-		for i := range out {
-			out[i] = obsReply{Class: "ETransport", Raw: died}
+		k := len(obs)
+		out := roundOut{Replies: make([]obsReply, len(in.Rounds[k]))}
+		for i := range out.Replies {
+			out.Replies[i] = obsReply{Class: "ETransport", Raw: died}
+		}
+		if k < len(in.Streams) {
+			for range in.Streams[k] {
+				out.Streams = append(out.Streams, streamObs{Status: "dead", Raw: died})
+			}
 		}
 		obs = append(obs, out)
 	}
@@ -1137,14 +1191,32 @@ func run(raw json.RawMessage) lib.Case {
 		os := make([]string, len(rd))
 		for j := range rd {
 			rs[j] = coqReq(rd[j])
-			os[j] = coqReply(obs[i][j])
+			os[j] = coqReply(obs[i].Replies[j])
 			n++
 		}
 		rds[i] = lib.List(rs)
 		obl[i] = lib.List(os)
 	}
-	coq := fmt.Sprintf("Case %s\n    %s\n    %s", lib.List(cl), lib.List(rds), lib.List(obl))
 	class := classOf(&in)
+	coq := fmt.Sprintf("Case %s\n    %s\n    %s", lib.List(cl), lib.List(rds), lib.List(obl))
+	if len(in.Streams) > 0 {
+		ss := make([]string, len(in.Rounds))
+		so := make([]string, len(in.Rounds))
+		for i := range in.Rounds {
+			var cs, os []string
+			if i < len(in.Streams) {
+				for j, c := range in.Streams[i] {
+					cs = append(cs, coqConv(c))
+					os = append(os, coqStreamObs(obs[i].Streams[j]))
+					n += len(c.Msgs)
+				}
+			}
+			ss[i] = lib.List(cs)
+			so[i] = lib.List(os)
+		}
+		coq = fmt.Sprintf("CMix %s\n    %s\n    %s\n    %s\n    %s", lib.List(cl), lib.List(rds), lib.List(obl), lib.List(ss), lib.List(so))
+		class = "stream-" + class
+	}
 	if crashed {
 		class += "-crash"
 	}
@@ -1154,8 +1226,6 @@ func run(raw json.RawMessage) lib.Case {
 	}
 	return lib.Case{Coq: coq, Class: class, Input: inp, Obs: obs, Nontrivial: n > 1}
 }
-
-// ---------------------------------------------------------------- generator
 
 func sp(s string) *string { return &s }
 func ip(i int64) *int64   { return &i }
